@@ -587,6 +587,14 @@ def r_stmt(st, style=PLAIN, indent=""):
         for b in st.body:
             lines.extend(r_stmt(b, style, indent + "    "))
         lines.append(indent + "}")
+        last = st.body[-1] if st.body else None
+        if style.rnd is not None and style.p(0.5) and len(lines) >= 3 and last is not None and not last.labels and \
+                (last.k in ("insn", "data", "wordlist", "blk") or (last.k == "simple" and not last.args)) and lines[-2].strip() and ";" not in lines[-2]:
+            # the closing brace on the line of the body's last statement (the whole block on one line if that is the only statement)
+            if len(lines) == 3 and style.p(0.5):
+                lines = [lines[0] + style.sp(" ") + lines[1].strip() + style.sp(" ") + "}"]
+            else:
+                lines = lines[:-2] + [lines[-2] + style.sp(" ") + "}"]
         return _decorate(lines, st, style)
     else:
         raise ValueError(k)
